@@ -522,3 +522,5 @@ ASSUMPTIONS = [
 OUTSIDE = ['more handles / requests than the bounds', 'Loop subclasses other than SimpleLoop',
            'handles cleared or worlds enabled/disabled by user code between switches',
            'switch requests issued while another one is in flight (e.g. from on_switch_out handlers)']
+
+TECHNIQUE = 'bounded symbolic execution (symx/z3) of switch scripts on the real SimpleLoop (targets, flags, origins, cached state as solver variables)'
